@@ -449,7 +449,12 @@ def compile(object, return_code=False):
             return code[x]
         elif isinstance(x, str):
             # ################## str ##################
-            return Literal(f'"{x}"', block=code.root_block)
+            # Escape backslashes, quotes, newlines and non-ASCII characters such that the literal evaluates to exactly this string
+            escaped = x.encode("unicode_escape").decode("ascii").replace('"', '\\"')
+            return Literal(f'"{escaped}"', block=code.root_block)
+        elif isinstance(x, float | np.floating) and not np.isfinite(x):
+            # ################## inf, -inf, nan: have no literal ##################
+            return Literal(f'float("{float(x)}")', block=code.root_block)
         elif isinstance(x, int | float | np.integer | np.floating | bool):
             # ################## Numeric ##################
             return Literal(str(x), block=code.root_block)
